@@ -92,8 +92,9 @@ Fixpoint zip_in (c : bool) (l1 l2 : list nat) : bool :=
   | _, _ => false
   end.
 
-(* children of two sequences: pairwise in R, where one child that is itself a plain sequence may
-   stand for a segment of children of the other side *)
+(* children of two sequences: pairwise in R, where one child of the SECOND grammar's sequence that is
+   itself a plain sequence may stand for a segment of children of the first one (wrappers and nesting are
+   recognised on the second grammar only; swap the arguments for the other direction) *)
 Fixpoint seq_align (n : nat) (l1 l2 : list nat) : bool :=
   match n with
   | 0 => false
@@ -102,11 +103,6 @@ Fixpoint seq_align (n : nat) (l1 l2 : list nat) : bool :=
     | [], [] => true
     | x :: t1, y :: t2 =>
       (pin_any x y && seq_align n' t1 t2)
-      || match seq_kids g1 x with
-         | Some ks => (length ks <=? length l2) && zip_in false ks (firstn (length ks) l2)
-                      && seq_align n' t1 (skipn (length ks) l2)
-         | None => false
-         end
       || match seq_kids g2 y with
          | Some ks => (length ks <=? length l1) && zip_in false (firstn (length ks) l1) ks
                       && seq_align n' (skipn (length ks) l1) t2
@@ -147,10 +143,6 @@ Definition local_ok (p : nat * nat * bool) : bool :=
     match get_node g1 i, get_node g2 j with
     | Some a, Some b =>
       struct_ok a b
-      || match unit_kid g1 i with
-         | Some x => pin_any x j && (negb c || efree g2 EDEPTH j)
-         | None => false
-         end
       || match unit_kid g2 j with
          | Some y => pin_any i y && (negb c || efree g1 EDEPTH i)
          | None => false
@@ -204,15 +196,13 @@ Definition proposals (p : nat * nat * bool) : list (nat * nat * bool) :=
     | Some a, Some b =>
       let k1 := n_kids a in let k2 := n_kids b in
       let seps := match n_sep a, n_sep b with Some x, Some y => [(x, y, false)] | _, _ => [] end in
-      let units := match unit_kid g1 i, unit_kid g2 j with
-                   | Some x, _ => [(x, j, false)]
-                   | None, Some y => [(i, y, false)]
-                   | None, None => []
+      let units := match unit_kid g2 j with
+                   | Some y => [(i, y, false)]
+                   | None => []
                    end in
       if same_class (n_kind a) (n_kind b) then
         let c := child_ctx (n_kind a) in
         (if Nat.eqb (length k1) (length k2) then zipc c k1 k2
-         else if Nat.eqb (length (expand g1 k1)) (length k2) then zipc c (expand g1 k1) k2
          else if Nat.eqb (length k1) (length (expand g2 k2)) then zipc c k1 (expand g2 k2)
          else units) ++ seps
       else units
